@@ -600,6 +600,14 @@ pub fn sim_advanced(
     trace
 }
 
+/// The outcome of one step of [`pick_next`]: the next event (or the end of the
+/// simulation), or only a change of state (an aggregate delay popped, an event
+/// queued) after which the pick has to be made again.
+enum Pick {
+    Done(Option<SimEvent>),
+    Again,
+}
+
 fn pick_next<M: AsRef<[Machine]>>(
     sq: &mut SimQueue,
     client: &mut SimState<M, RngSource>,
@@ -607,6 +615,23 @@ fn pick_next<M: AsRef<[Machine]>>(
     network: &mut NetworkBottleneck,
     current_time: Instant,
 ) -> Option<SimEvent> {
+    // a loop, not recursion: the number of steps that only change state grows
+    // with the trace (one per pending aggregate delay) and must not be bounded
+    // by the stack
+    loop {
+        if let Pick::Done(next) = pick_next_step(sq, client, server, network, current_time) {
+            return next;
+        }
+    }
+}
+
+fn pick_next_step<M: AsRef<[Machine]>>(
+    sq: &mut SimQueue,
+    client: &mut SimState<M, RngSource>,
+    server: &mut SimState<M, RngSource>,
+    network: &mut NetworkBottleneck,
+    current_time: Instant,
+) -> Pick {
     // find the earliest scheduled action, internal timer, block expiry,
     // aggregate delay, and queued events to determine the next event
     let s = peek_scheduled_action(
@@ -648,7 +673,7 @@ fn pick_next<M: AsRef<[Machine]>>(
         && n == Duration::MAX
         && q == Duration::MAX
     {
-        return None;
+        return Pick::Done(None);
     }
 
     // We prioritize the aggregate delay first: it is fundamental and may lead
@@ -656,7 +681,7 @@ fn pick_next<M: AsRef<[Machine]>>(
     if n <= s && n <= i && n <= b && n <= q {
         debug!("\tpick_next(): picked aggregate delay");
         network.pop_aggregate_delay();
-        return pick_next(sq, client, server, network, current_time);
+        return Pick::Again;
     }
 
     // next is blocking expiry, fundamental due to how we aggregate delay
@@ -711,9 +736,9 @@ fn pick_next<M: AsRef<[Machine]>>(
             // if any delay, there might be events before the BlockingEnd event,
             // so queue up and pick again
             sq.push_sim(e);
-            return pick_next(sq, client, server, network, current_time);
+            return Pick::Again;
         }
-        return Some(e);
+        return Pick::Done(Some(e));
     }
 
     // We prioritize the queue next: in general, stuff happens faster outside
@@ -742,7 +767,7 @@ fn pick_next<M: AsRef<[Machine]>>(
             tmp.time = current_time + q;
         }
 
-        return Some(tmp);
+        return Pick::Done(Some(tmp));
     }
 
     // next we pick internal events, which should be faster than scheduled
@@ -754,7 +779,7 @@ fn pick_next<M: AsRef<[Machine]>>(
         if let Some(a) = act {
             sq.push_sim(a.clone());
         }
-        return pick_next(sq, client, server, network, current_time);
+        return Pick::Again;
     }
 
     // what's left is scheduled actions: find the action act on the action,
@@ -771,11 +796,11 @@ fn pick_next<M: AsRef<[Machine]>>(
             // now bypassable block) overtake the event that reports it, and a
             // Cancel or newer action triggered that way would find the slot
             // already empty.
-            return Some(a);
+            return Pick::Done(Some(a));
         }
         sq.push_sim(a.clone());
     }
-    pick_next(sq, client, server, network, current_time)
+    Pick::Again
 }
 
 fn do_internal_timer<M: AsRef<[Machine]>>(
